@@ -27,7 +27,7 @@ RULE = (
     "Exhaustive fault enumeration against an in-process HTTP mock (responses): data-URL response "
     "scripts of length <=3 (thorough: <=4, plus a truncated-body fault 't' and body sizes "
     "0,1,1023,1024,1025,2048,5000 around the 1024-byte stream chunk) over {g=correct body, "
-    "c=corrupted body, e=empty 200 body, 4=HTTP 404} x checksum behaviour, both constant {o=correct, w=wrong, "
+    "c=corrupted body, e=empty 200 body, 4=HTTP 404, 5=HTTP 503} x checksum behaviour, both constant {o=correct, w=wrong, "
     "m=unavailable; the checksum file is '<md5>  name', bare, 'md5sum -b' style or naming another path, the wrong checksum is all zeros, another digest, one character short or too long) and scripted sequences of length <=3 over the same alphabet x prior target "
     "file {absent, valid, corrupt}. Requests beyond a script's end answer HTTP 500 (data) / 404 "
     "(checksum). HEAD on the data URL answers with the status and Content-Length of what the next GET would serve (without consuming the script). (big-bodies) bodies of 1 MiB + 577 bytes (thorough: up to 4 MiB + 1). Oracle: a reference model of "
@@ -61,7 +61,7 @@ def _scripts(alphabet, maxlen):
 
 
 def _cases(th):
-    dalpha = 'gcte4' if th else 'gce4'
+    dalpha = 'gcte45' if th else 'gce45'
     sizes = [0, 1, 1023, 1024, 1025, 2048, 5000] if th else [5000]
     k = 0
     for size in sizes:
@@ -90,7 +90,10 @@ def _big_cases(th):
 
 def drivers(tier):
     th = tier == 'thorough'
-    return [dict(kind='enum', name='big-bodies', exhaustive=False,
+    return [dict(kind='enum', name='wrapper-names', exhaustive=False,
+                 bound='8 hand-made pairs of names with and without a directory part',
+                 cases=_name_cases),
+            dict(kind='enum', name='big-bodies', exhaustive=False,
                  bound='bodies of 1 MiB + 577 bytes (thorough: up to 4 MiB + 1)',
                  cases=lambda: _big_cases(th)),
             dict(kind='enum', name='faults', exhaustive=True,
@@ -154,7 +157,45 @@ def _model(case, good, corrupt, trunc):
     return 'return', content, log
 
 
+def _name_cases():
+    # the wrapper with file names that have a directory part (several files per folder of the
+    # data repository), one after the other into the same cache directory
+    for a, b in (('probe0/channel_map.bin', 'probe1/channel_map.bin'),
+                 ('a/b/x.bin', 'a/c/x.bin'), ('x.bin', 'sub/x.bin'), ('u.bin', 'v.bin')):
+        for force in (False, True):
+            yield {'k': 'names', 'names': [a, b], 'force': force}
+
+
+def _check_names(case):
+    base = URL[:-len('file.bin')]
+    _ds._BASE_URL = base
+    bodies = {n: _body(300 + 7 * i) + n.encode() for i, n in enumerate(case['names'])}
+    with env.scratch() as d:
+        with responses.RequestsMock(assert_all_requests_are_fired=False) as rm:
+            for n, body in bodies.items():
+                rm.add(responses.GET, base + n, body=body, status=200)
+                rm.add(responses.GET, base + n + '.md5',
+                       body=hashlib.md5(body).hexdigest() + '  ' + n.split('/')[-1] + '\n',
+                       status=200)
+            for n in case['names']:
+                _event.reset()
+                with contextlib.redirect_stdout(io.StringIO()), core.ambient_ctx():
+                    try:
+                        ret = download_test_file(n, config_dir=d, force=case['force'])
+                    except Exception as e:
+                        raise Violation('download_test_file(%r) raised %s' % (n, type(e).__name__),
+                                        key='wrapper-raised')
+                got = hashlib.md5(Path(ret).read_bytes()).hexdigest()
+                require(got == hashlib.md5(bodies[n]).hexdigest(),
+                        'download_test_file(%r) returned normally with a file that fails the '
+                        'checksum published for it' % n, key='bad-file-returned',
+                        observed=(str(ret), got), expected=hashlib.md5(bodies[n]).hexdigest())
+    return {'outcome': 'return', 'data': 0}
+
+
 def check(case):
+    if case.get('k') == 'names':
+        return _check_names(case)
     import requests
     good, corrupt, trunc = _variants(case['size'])
     md5_good = hashlib.md5(good).hexdigest()
@@ -176,16 +217,18 @@ def check(case):
             return (200, {}, b'')
         if d == '4':
             return (404, {}, b'not found')
+        if d == '5':
+            return (503, {}, b'service unavailable, try later')
         seen['exhausted'] = True
         return (500, {}, b'script exhausted')
 
     def head_cb(req):
         # a server answers HEAD with the status and length of what GET would serve now
         d = data[0] if data else 'X'
-        body = {'g': good, 'c': corrupt, 't': trunc, 'e': b'', '4': b'not found'}.get(
-            d, b'script exhausted')
+        body = {'g': good, 'c': corrupt, 't': trunc, 'e': b'', '4': b'not found',
+                '5': b'service unavailable, try later'}.get(d, b'script exhausted')
         seen['head'] = seen.get('head', 0) + 1
-        return ({'4': 404, 'X': 500}.get(d, 200), {'Content-Length': str(len(body))}, b'')
+        return ({'4': 404, '5': 503, 'X': 500}.get(d, 200), {'Content-Length': str(len(body))}, b'')
 
     def md5_cb(req):
         seen['md5'] += 1
@@ -284,6 +327,8 @@ def check(case):
 
 
 def classify(case, info):
+    if case.get('k') == 'names':
+        return ['wrapper:two-names-one-cache-directory'], True
     labels = ['outcome:' + info['outcome'], 'prior:' + case['prior'], 'datareq:%d' % info['data']]
     nt = False
     d = case['data']
